@@ -227,3 +227,14 @@ def sample(r):
                     outcome=r['outcome'], outcome_under_O=r['outcomeO'], cursor_events=len(r['events']) // 6,
                     first_events=r['events'][:18])
     return dict(kind='cli', input_hex=r['input'][:160], python_O=r['opt'], exit=r['exit'], stdout=r['stdout'])
+
+
+def corrupt(r):
+    if r['kind'] == 'decode':
+        if len(r['events']) < 6:
+            return None
+        r['events'][3] += 1
+        r['eventsO'] = [-1]
+        return r
+    r['exit'] = 3
+    return r
